@@ -372,6 +372,7 @@ class BlockRec:
         self.blocks = blocks if blocks is not None else []     # (r0, r1, c0, c1, value)
         self.factor = factor
         self.kind = kind
+        self.read_back = False
 
     @property
     def shape(self):
@@ -387,6 +388,14 @@ class BlockRec:
         self.blocks.append(self._sl(key) + (value,))
 
     def __getitem__(self, key):
+        # reading back a block that was assigned as a whole (H[n:, n:] = -H[:n, :n].T)
+        if isinstance(key, tuple) and len(key) == 2 and all(isinstance(k, slice) for k in key):
+            r0, r1, c0, c1 = self._sl(key)
+            c = WCtx.current
+            for (a0, a1, b0, b1, val) in reversed(self.blocks):
+                if r0.same(a0, c) and r1.same(a1, c) and c0.same(b0, c) and c1.same(b1, c):
+                    self.read_back = True
+                    return val
         raise Concretization("reading a recorded block matrix before it is consumed")
 
     def __mul__(self, o):
